@@ -13,7 +13,7 @@ pub fn def() -> PropDef {
         job_level,
         run_job,
         replay,
-        rule: "family T (tables): every ordered pair of sequences from the item grammar {a,b,c,S-a,S-b,S-(a b),O-(a b),O-(b a),O-(a b c),O-(b c)}^(1..2) plus plain sequences of length 3 (and, in thorough, ordered triples over the length-1/2 plain+chord subset): the real parser's accept/reject is compared with prefix-freeness computed over the documented token expansion (every permutation of every O- group), and on acceptance the trie entries (hook H4) must equal the expected expansion with the right virtual-key coordinate. family A (typing): 6 sequence sets x 3 input modes x 2 leader forms (sldr with defcfg mode / (sequence T mode) overriding a different defcfg mode); ALL unit histories of up to D units (quick 6 for sldr / 5 for the sequence action, thorough 7 / 6) over {leader tap, tap a, tap b, tap c, tap d(probe, in no sequence)} x gap-after in {T-3, T+4} (thorough adds 2), T=8; reference model of sequence mode (buffer of typed keys, exact match fires once, no-match/timeout cancels, mode-specific OS presses) predicts the exact order of OS presses; where the typed keys fail strictly but a proper suffix is still a prefix of a defined sequence (the implementation backtracks) either the strict-cancel or the suffix-backtracking prediction is accepted (class window). family B (chords in sequences): configs with S-(..) and O-(..) sequences; ALL physically consistent press/release histories of depth 6 (thorough 7) over {a,b,c,lsft} after a leader tap; strict token model for S- configs (histories where only a relaxed reading could match are skipped, class relaxed); for O- configs safety (at most one activation per leader, activation only if all keys of that sequence were pressed) on all histories plus canonical typings (every press order and release order of the group) must activate exactly once and non-overlapping typing must not. Always: nothing left pressed at the OS.",
+        rule: "family T (tables): every ordered pair of sequences from the item grammar {a,b,c,S-a,S-b,S-(a b),O-(a b),O-(b a),O-(a b c),O-(b c)}^(1..2) plus plain sequences of length 3 (and, in thorough, ordered triples over the length-1/2 plain+chord subset): the real parser's accept/reject is compared with prefix-freeness computed over the documented token expansion (every permutation of every O- group), and on acceptance the trie entries (hook H4) must equal the expected expansion with the right virtual-key coordinate. family A (typing): 6 sequence sets x 3 input modes x 2 leader forms (sldr with defcfg mode / (sequence T mode) overriding a different defcfg mode); ALL unit histories of up to D units (6 for sldr / 5 for the sequence action in both tiers; thorough uses the larger gap set) over {leader tap, tap a, tap b, tap c, tap d(probe, in no sequence)} x gap-after in {T-3, T+4} (thorough adds 2), T=8; reference model of sequence mode (buffer of typed keys, exact match fires once, no-match/timeout cancels, mode-specific OS presses) predicts the exact order of OS presses; where the typed keys fail strictly but a proper suffix is still a prefix of a defined sequence (the implementation backtracks) either the strict-cancel or the suffix-backtracking prediction is accepted (class window). family B (chords in sequences): configs with S-(..) and O-(..) sequences; ALL physically consistent press/release histories of depth 6 (thorough 7) over {a,b,c,lsft} after a leader tap; strict token model for S- configs (histories where only a relaxed reading could match are skipped, class relaxed); for O- configs safety (at most one activation per leader, activation only if all keys of that sequence were pressed) on all histories plus canonical typings (every press order and release order of the group) must activate exactly once and non-overlapping typing must not. Always: nothing left pressed at the OS.",
         assumptions: &["timeout boundary (interval within 2 ms of the timeout) not exercised: gaps are chosen clear of it", "releases of keys whose press was hidden are ignored (documented BUG(sequences) in handle_keystate_changes; the property constrains presses)", "a leader pressed while a sequence is in progress restarts the attempt in hidden-suppressed mode and is ignored in the other modes (src/kanata/mod.rs SequenceLeader); the property does not constrain this, the model follows the code"],
         required_level,
         min_outcomes: 4,
@@ -759,8 +759,8 @@ fn jobs(tier: Tier) -> &'static Vec<Job> {
                     let depth = match (tier, leader) {
                         (Tier::Quick, 0) => 6,
                         (Tier::Quick, _) => 5,
-                        (_, 0) => 7,
-                        (_, _) => 6,
+                        (_, 0) => 6,
+                        (_, _) => 5,
                     };
                     // first unit is always the leader (histories not starting with it are covered as
                     // suffixes after a timeout); shard on its gap and the second unit
